@@ -48,6 +48,22 @@ Proof.
   - apply issue_when_closed_refused. assumption.
 Qed.
 
+(* the response that is read in the same loop turn, after the timer fired (or at any later time), is
+   consumed by nobody: a read on the abandoned connection changes nothing and outputs nothing *)
+Lemma data_when_closed_noop : forall s ms, opened s = false -> step s (Data ms) = (s, []).
+Proof. intros s ms Ho. cbn [step]. rewrite Ho. reflexivity. Qed.
+
+Lemma timeout_then_data : forall s r wt rest dt ms, Inv s -> inflight s = (r, wt) :: rest ->
+    (wt + T30 <= clock s + dt)%N ->
+    let s' := fst (step s (Advance dt)) in
+    step s' (Data ms) = (s', []) /\ opened s' = false /\
+    In (ODone r TimedOut (wt + T30)) (snd (step s (Advance dt))).
+Proof.
+  intros s r wt rest dt ms I H Hd s'.
+  destruct (timeout_closes cap T30 s r wt rest dt I H Hd) as [Hc [Hdone _]]. fold s' in Hc.
+  split; [apply data_when_closed_noop; exact Hc|]. split; assumption.
+Qed.
+
 (* the same on histories: appending the same-turn cancellation (of anybody) to a history that ends
    with the timeout changes neither the final state nor adds any output *)
 Lemma timeout_cancel_history : forall es r wt rest dt r',
